@@ -261,6 +261,105 @@ example : finishLayers alwaysTrue ([l1, l0].filter fun l => shouldLoad alwaysTru
 
 example : finishLayers Request.everything [l1, l0] = .ok [l0, l1] := by rfl
 
+/-! ### builder-call sequences: `Req.apply`, the documented meaning of each `DataRequest` call applied in order
+
+The driver recomputes the request of every `seq=` recipe with `Req.apply` and disagrees when the harness's own
+interpreter reports another one, so the expectation of the C17 oracle is this definition. -/
+
+theorem apply_snoc (cs : List Call) (c : Call) : Req.apply (cs ++ [c]) = (Req.apply cs).step c := by
+  simp [Req.apply, List.foldl_append]
+
+/-- `all()` and `none()` reset everything, whatever came before -/
+theorem all_none_reset (cs : List Call) :
+    Req.apply (cs ++ [Call.all]) = Request.everything ∧ Req.apply (cs ++ [Call.none]) = Request.nothing := by
+  simp [apply_snoc, Request.step]
+
+theorem getPart_setPart (r : Request) (s s' : PartSwitch) (b : Bool) :
+    (r.setPart s b).getPart s' = if s' = s then b else r.getPart s' := by
+  cases s <;> cases s' <;> simp [Request.setPart, Request.getPart]
+
+/-- a part call touches its own switch only -/
+theorem part_call_touches_only_its_switch (r : Request) (s : PartSwitch) (b : Bool) :
+    (r.step (.part s b)).all = r.all ∧ (r.step (.part s b)).loadDefault = r.loadDefault ∧
+    (r.step (.part s b)).custom = r.custom ∧ ∀ s', s' ≠ s → (r.step (.part s b)).getPart s' = r.getPart s' := by
+  refine ⟨?_, ?_, ?_, ?_⟩
+  · cases s <;> rfl
+  · cases s <;> rfl
+  · cases s <;> rfl
+  · intro s' h; simp [Request.step, getPart_setPart, h]
+
+/-- layer calls do not touch the part switches -/
+theorem layer_calls_keep_parts (r : Request) (s : PartSwitch) (b : Bool) (tag : Char) (p : Str → Str → Bool) :
+    (r.step (.layers b)).getPart s = r.getPart s ∧ (r.step (.defaultLayer b)).getPart s = r.getPart s ∧
+    (r.step (.filter tag p)).getPart s = r.getPart s := by
+  cases s <;> simp [Request.step, Request.getPart]
+
+/-- calls that neither reset nor set the switch `s` -/
+def leaves (s : PartSwitch) : Call → Bool
+  | .all => false
+  | .none => false
+  | .part s' _ => s' != s
+  | _ => true
+
+theorem step_leaves (r : Request) (s : PartSwitch) (c : Call) (hc : leaves s c = true) :
+    (r.step c).getPart s = r.getPart s := by
+  cases c with
+  | all => simp [leaves] at hc
+  | none => simp [leaves] at hc
+  | layers b' => exact (layer_calls_keep_parts _ s b' 'x' (fun _ _ => true)).1
+  | defaultLayer b' => exact (layer_calls_keep_parts _ s b' 'x' (fun _ _ => true)).2.1
+  | filter tag p => exact (layer_calls_keep_parts _ s true tag p).2.2
+  | part s' b' =>
+    have : s ≠ s' := by
+      intro e; subst e; simp [leaves] at hc
+    simp [Request.step, getPart_setPart, this]
+
+theorem foldl_leaves (s : PartSwitch) : ∀ (cs : List Call) (r : Request), (∀ c ∈ cs, leaves s c = true) →
+    (cs.foldl Request.step r).getPart s = r.getPart s := by
+  intro cs
+  induction cs with
+  | nil => intro r _; rfl
+  | cons c rest ih =>
+    intro r h
+    simp only [List.foldl_cons]
+    rw [ih (r.step c) (fun x hx => h x (List.mem_cons_of_mem _ hx)),
+      step_leaves r s c (h c (List.mem_cons_self ..))]
+
+/-- **the later call wins, per switch**: after `part s b`, calls that neither reset nor set `s` leave it at `b` -/
+theorem later_call_wins (cs1 cs2 : List Call) (s : PartSwitch) (b : Bool)
+    (h : ∀ c ∈ cs2, leaves s c = true) :
+    (Req.apply (cs1 ++ [Call.part s b] ++ cs2)).getPart s = b := by
+  unfold Req.apply
+  rw [List.foldl_append, foldl_leaves s cs2 _ h, List.foldl_append]
+  simp [Request.step, getPart_setPart]
+
+theorem apply_snoc2 (cs : List Call) (a b : Call) :
+    Req.apply (cs ++ [a, b]) = ((Req.apply cs).step a).step b := by
+  simp [Req.apply, List.foldl_append]
+
+/-- **`filter_layers(p)` then `default_layer(b)` keeps the predicate** (and the other order keeps the default flag):
+    the two calls only agree on switching "all layers" off -/
+theorem filter_then_default_keeps_predicate (cs : List Call) (tag : Char) (p : Str → Str → Bool) (b : Bool) :
+    (Req.apply (cs ++ [Call.filter tag p, Call.defaultLayer b])).custom = some p ∧
+    (Req.apply (cs ++ [Call.filter tag p, Call.defaultLayer b])).loadDefault = b ∧
+    (Req.apply (cs ++ [Call.filter tag p, Call.defaultLayer b])).all = false ∧
+    (Req.apply (cs ++ [Call.defaultLayer b, Call.filter tag p])).custom = some p ∧
+    (Req.apply (cs ++ [Call.defaultLayer b, Call.filter tag p])).loadDefault = b ∧
+    (Req.apply (cs ++ [Call.defaultLayer b, Call.filter tag p])).all = false := by
+  simp [apply_snoc2, Request.step]
+
+/-- `layers(true)` after a filter selects every layer again without removing the predicate -/
+theorem layers_after_filter (cs : List Call) (tag : Char) (p : Str → Str → Bool) (n d : Str) :
+    shouldLoad (Req.apply (cs ++ [Call.filter tag p, Call.layers true])) n d = true ∧
+    (Req.apply (cs ++ [Call.filter tag p, Call.layers true])).custom = some p := by
+  simp [apply_snoc2, Request.step, shouldLoad]
+
+/-- every call is idempotent -/
+theorem call_idempotent (r : Request) (c : Call) : (r.step c).step c = r.step c := by
+  cases c with
+  | part s b => cases s <;> rfl
+  | _ => rfl
+
 /-! ### source-level tie: which request switch guards which file in `Font::load_impl`, as the code says it NOW
 
 `Generated.SaveOrder.loadSwitches` is regenerated from `src/font.rs` on every run.  The model's own table is not
